@@ -247,7 +247,7 @@ func execJSON(c jsonCase) outcome {
 		root = model.Build(c.Base)
 	}
 	var err error
-	o.pan = catch(func() {
+	o.pan = watched(c.String, func() {
 		switch c.Entry % 4 {
 		case 0:
 			err = v.Unmarshal(c.Doc, root, uopts...)
@@ -330,7 +330,7 @@ func execNode(c nodeCase) outcome {
 	}
 	var err error
 	n := 0
-	o.pan = catch(func() {
+	o.pan = watched(c.String, func() {
 		switch c.Op % 3 {
 		case 0:
 			var opts []ytypes.GetNodeOpt
@@ -469,7 +469,7 @@ func execReq(c reqCase) outcome {
 		opts = append(opts, &ytypes.BestEffortUnmarshal{})
 	}
 	var err error
-	o.pan = catch(func() {
+	o.pan = watched(c.String, func() {
 		sch := schemaWith(v, root)
 		if c.API%2 == 0 {
 			req := c.Req
@@ -499,7 +499,7 @@ func execStr(s string) outcome {
 	var o outcome
 	var e1, e2, e3, e4, e5 error
 	var p1 *gpb.Path
-	o.pan = catch(func() {
+	o.pan = watched(func() string { return fmt.Sprintf("string %q", s) }, func() {
 		p1, e1 = ygot.StringToStructuredPath(s)
 		_, e2 = ygot.StringToStringSlicePath(s)
 		_, e3 = ygot.StringToPath(s, ygot.StructuredPath, ygot.StringSlicePath)
@@ -619,7 +619,7 @@ func execDiff(c diffCase) outcome {
 		sch = schemaWith(v, root)
 	}
 	var err error
-	o.pan = catch(func() {
+	o.pan = watched(c.String, func() {
 		a := c.A
 		if c.NilA {
 			a = nil
